@@ -222,6 +222,8 @@ class Impl:
         others = {k: v for k, v in self.sides().items() if k != side}
         try:
             before = {k: v.snapshot() for k, v in others.items()}
+            layers_before = (sorted(me.impl.space._mesa_property_layers) if me.impl.space is not None and me.impl.h.kind == "grid"
+                             else [])
             out = me.line(w)
             for k, v in others.items():
                 after = v.snapshot()
@@ -229,7 +231,7 @@ class Impl:
                     self.trace.append(("leak", side, " ".join(w) + f" (seen on side {k})", before[k], after))
             if others:
                 self.trace.append(("state", side, " ".join(w), out, me.snapshot()[0] if me.impl.space is not None else None,
-                                   me.impl.h.kind))
+                                   me.impl.h.kind, layers_before))
         except Exception as e:  # noqa: BLE001
             if self.c is None:
                 raise  # before any copy exists this is the cells harness' business
@@ -247,7 +249,7 @@ def run_impl(sc):
     return obs
 
 
-def dump_inconsistencies(dump):
+def dump_inconsistencies(dump, hand_written_empty=False):
     """C06's clauses on one observation dump (the views of one space must agree with each other)"""
     _, d = C.parse_dump("x | " + dump)
     bad = []
@@ -274,6 +276,8 @@ def dump_inconsistencies(dump):
         bad.append(f"cells {sorted(set(d.get('empty', [])) & set(occ))} are occupied and report is_empty")
     if set(d.get("empties", [])) != set(d.get("empty", [])):
         bad.append(f"space.empties {d.get('empties')} differs from the cells with is_empty {d.get('empty')}")
+    if hand_written_empty:
+        return bad
     if d.get("layer") != ["na"] and set(d.get("layer", [])) != set(d.get("empty", [])):
         bad.append(f"the 'empty' layer {d.get('layer')} differs from the empty cells {d.get('empty')}")
     if d.get("pempty") != ["na"] and d.get("pempty") != d.get("layer"):
@@ -283,6 +287,8 @@ def dump_inconsistencies(dump):
 
 def oracle(sc, obs):
     bad = []
+    # once the program has written the built-in `empty` layer by hand, that layer legitimately differs from emptiness
+    hand_empty = any(" layer set empty " in " " + l + " " for l in sc.lines)
     for ev in sc.meta.get("trace") or []:
         if ev[0] == "copied":
             _, how, so, sc_, ident = ev
@@ -292,11 +298,13 @@ def oracle(sc, obs):
             for p in ident:
                 bad.append(f"detached-identity: after {how}: {p}")
         elif ev[0] == "state":
-            _, side, op, out, dump, kind = ev
+            _, side, op, out, dump, kind = ev[:6]
             if kind == "grid" and op.split()[:2] in (["layer", "add"], ["layer", "del"], ["layer", "fill"]) and out == "err Attr":
                 bad.append(f"copy-unusable: `{op}` on side {side} raised AttributeError on a grid (property layers must keep working on the original and on the copy)")
+            if kind == "grid" and op.split()[:2] == ["layer", "del"] and out == "err Key" and op.split()[2] in ev[6]:
+                bad.append(f"copy-unusable: `{op}` on side {side} raised KeyError although the layer exists on that side")
             if dump is not None:
-                for p in dump_inconsistencies(dump):
+                for p in dump_inconsistencies(dump, hand_written_empty=hand_empty):
                     bad.append(f"copy-inconsistent: after `{op}` on side {side}: {p}")
         elif ev[0] == "unusable":
             bad.append(f"copy-unusable: '{ev[1]}' raised {ev[2]} (a copy must behave like a freshly built space)")
@@ -328,8 +336,11 @@ def generate(rng, tier, count):
             nm = R.choice(LAYER_NAMES)
             if j < 0.25:
                 return f"{prefix}layer add {R.choice(LAYER_NAMES + BAD_NAMES)} {R.randrange(5)}"
-            if j < 0.55:
+            if j < 0.5:
                 return f"{prefix}layer set {nm} {R.choice(names)} {R.randrange(-3, 9)}"
+            if j < 0.55:
+                # the built-in emptiness layer written by hand (a reserved cell): a copy must carry the value over
+                return f"{prefix}layer set empty {R.choice(names)} {R.randrange(0, 2)}"
             if j < 0.85:
                 return f"{prefix}layer get {R.choice(LAYER_NAMES + ['empty'])} {R.choice(names)}"
             if j < 0.93:
